@@ -29,6 +29,10 @@ import Mathlib.Analysis.SpecialFunctions.Trigonometric.Deriv
 import Mathlib.Analysis.SpecialFunctions.Trigonometric.ArctanDeriv
 import Mathlib.Analysis.SpecialFunctions.Pow.Deriv
 import Mathlib.Analysis.SpecialFunctions.Sqrt
+import Mathlib.Analysis.SpecialFunctions.Arcosh
+import Mathlib.Analysis.SpecialFunctions.Artanh
+import Mathlib.Analysis.SpecialFunctions.Arsinh
+import Mathlib.Analysis.SpecialFunctions.Trigonometric.InverseDeriv
 import Mathlib.LinearAlgebra.Matrix.ToLin
 import Mathlib.Topology.Algebra.Module.FiniteDimension
 import PorepyVerif.C03.Model
@@ -366,6 +370,113 @@ theorem heaviside_hasDerivAt (z x : ℝ) (h : x ≠ 0) :
       rw [if_neg (not_lt.mpr hy'.le), if_neg hy'.ne']
     exact (hasDerivAt_const x (1 : ℝ)).congr_of_eventuallyEq hev
 
+/-! ### inverse trigonometric / hyperbolic functions, `safe_power`, `heaviside_smooth` -/
+
+/-- `y ** (-0.5)` is `1/√y` for positive `y` -/
+theorem rpow_neg_half {y : ℝ} (hy : 0 < y) : y ^ (-(1 / 2) : ℝ) = (Real.sqrt y)⁻¹ := by
+  rw [Real.rpow_neg hy.le, Real.sqrt_eq_rpow]
+
+noncomputable def arcsinRule : Rule1 ℝ := ⟨Real.arcsin, fun x => (1 - x ^ 2) ^ (-(1 / 2) : ℝ)⟩
+noncomputable def arccosRule : Rule1 ℝ := ⟨Real.arccos, fun x => -((1 - x ^ 2) ^ (-(1 / 2) : ℝ))⟩
+noncomputable def arcsinhRule : Rule1 ℝ := ⟨Real.arsinh, fun x => (x ^ 2 + 1) ^ (-(1 / 2) : ℝ)⟩
+noncomputable def arccoshRule : Rule1 ℝ :=
+  ⟨Real.arcosh, fun x => (x - 1) ^ (-(1 / 2) : ℝ) * (x + 1) ^ (-(1 / 2) : ℝ)⟩
+noncomputable def arctanhRule : Rule1 ℝ := ⟨Real.artanh, fun x => (1 - x ^ 2)⁻¹⟩
+/-- `safe_power(power, zero_val, tol, ·)` -/
+noncomputable def safePowerRule (p z tol : ℝ) : Rule1 ℝ :=
+  ⟨fun x => if tol < |x| then x ^ p else z, fun x => if tol < |x| then p * x ^ (p - 1) else 0⟩
+/-- `heaviside_smooth(·, eps)` -/
+noncomputable def heavisideSmoothRule (eps : ℝ) : Rule1 ℝ :=
+  ⟨fun x => 0.5 * (1 + 2 * Real.pi⁻¹ * Real.arctan (x * eps⁻¹)),
+   fun x => Real.pi⁻¹ * eps * (eps ^ 2 + x ^ 2)⁻¹⟩
+
+theorem one_sub_sq_pos {x : ℝ} (h : |x| < 1) : 0 < 1 - x ^ 2 := by
+  have := abs_lt.mp h
+  nlinarith
+
+theorem arcsin_sound1 (x : ℝ) (h : |x| < 1) : Sound1 arcsinRule x := by
+  unfold Sound1
+  have hx := abs_lt.mp h
+  have := Real.hasDerivAt_arcsin (x := x) (by linarith) (by linarith)
+  refine this.congr_deriv ?_
+  simp only [arcsinRule]
+  rw [rpow_neg_half (one_sub_sq_pos h), one_div]
+
+theorem arccos_sound1 (x : ℝ) (h : |x| < 1) : Sound1 arccosRule x := by
+  unfold Sound1
+  have hx := abs_lt.mp h
+  have := Real.hasDerivAt_arccos (x := x) (by linarith) (by linarith)
+  refine this.congr_deriv ?_
+  simp only [arccosRule]
+  rw [rpow_neg_half (one_sub_sq_pos h), one_div]
+
+theorem arcsinh_sound1 (x : ℝ) : Sound1 arcsinhRule x := by
+  unfold Sound1
+  have := Real.hasDerivAt_arsinh x
+  refine this.congr_deriv ?_
+  simp only [arcsinhRule]
+  rw [rpow_neg_half (by positivity), add_comm]
+
+theorem arccosh_sound1 (x : ℝ) (h : 1 < x) : Sound1 arccoshRule x := by
+  unfold Sound1
+  have := Real.hasDerivAt_arcosh (x := x) h
+  refine this.congr_deriv ?_
+  simp only [arccoshRule]
+  rw [rpow_neg_half (by linarith), rpow_neg_half (by linarith), ← mul_inv,
+    ← Real.sqrt_mul (by linarith)]
+  congr 2
+  ring
+
+theorem arctanh_sound1 (x : ℝ) (h : |x| < 1) : Sound1 arctanhRule x := by
+  unfold Sound1
+  have hx := abs_lt.mp h
+  have h1 : (0 : ℝ) < 1 + x := by linarith
+  have h2 : (0 : ℝ) < 1 - x := by linarith
+  have hq : HasDerivAt (fun y : ℝ => (1 + y) / (1 - y)) ((1 * (1 - x) - (1 + x) * (-1)) / (1 - x) ^ 2) x :=
+    (((hasDerivAt_id x).const_add 1).div ((hasDerivAt_id x).const_sub 1) h2.ne')
+  have hl := (hq.log (div_pos h1 h2).ne').const_mul (1 / 2 : ℝ)
+  have hev : Real.artanh =ᶠ[nhds x] fun y => 1 / 2 * Real.log ((1 + y) / (1 - y)) := by
+    filter_upwards [(isOpen_Ioo (a := (-1 : ℝ)) (b := 1)).mem_nhds ⟨hx.1, hx.2⟩] with y hy
+    exact Real.artanh_eq_half_log ⟨hy.1.le, hy.2.le⟩
+  refine (hl.congr_of_eventuallyEq hev).congr_deriv ?_
+  simp only [arctanhRule]
+  have h3 : (1 : ℝ) - x ^ 2 = (1 - x) * (1 + x) := by ring
+  rw [h3]
+  field_simp
+  ring
+
+theorem safePower_sound1 (p z tol x : ℝ) (htol : 0 ≤ tol) (h : |x| ≠ tol) : Sound1 (safePowerRule p z tol) x := by
+  unfold Sound1
+  simp only [safePowerRule]
+  rcases lt_or_gt_of_ne h with hlt | hgt
+  · have ho : IsOpen {y : ℝ | |y| < tol} := isOpen_lt continuous_abs continuous_const
+    have hev : (fun y : ℝ => if tol < |y| then y ^ p else z) =ᶠ[nhds x] fun _ => z := by
+      filter_upwards [ho.mem_nhds (show x ∈ {y : ℝ | |y| < tol} from hlt)] with y hy
+      rw [if_neg (not_lt.mpr (le_of_lt hy))]
+    rw [if_neg (not_lt.mpr hlt.le)]
+    exact (hasDerivAt_const x z).congr_of_eventuallyEq hev
+  · have ho : IsOpen {y : ℝ | tol < |y|} := isOpen_lt continuous_const continuous_abs
+    have hev : (fun y : ℝ => if tol < |y| then y ^ p else z) =ᶠ[nhds x] fun y => y ^ p := by
+      filter_upwards [ho.mem_nhds (show x ∈ {y : ℝ | tol < |y|} from hgt)] with y hy
+      rw [if_pos hy]
+    have hx0 : x ≠ 0 := by
+      intro h0; rw [h0, abs_zero] at hgt; linarith
+    rw [if_pos hgt]
+    exact (Real.hasDerivAt_rpow_const (Or.inl hx0)).congr_of_eventuallyEq hev
+
+theorem heavisideSmooth_sound1 (eps x : ℝ) (he : eps ≠ 0) : Sound1 (heavisideSmoothRule eps) x := by
+  unfold Sound1
+  simp only [heavisideSmoothRule]
+  have hin : HasDerivAt (fun y : ℝ => y * eps⁻¹) (1 * eps⁻¹) x := (hasDerivAt_id x).mul_const eps⁻¹
+  have hat := (Real.hasDerivAt_arctan' (x * eps⁻¹)).comp x hin
+  have h := ((hat.const_mul (2 * Real.pi⁻¹)).const_add 1).const_mul (0.5 : ℝ)
+  refine h.congr_deriv ?_
+  have hp : Real.pi ≠ 0 := Real.pi_ne_zero
+  have hpos : eps ^ 2 + x ^ 2 ≠ 0 := by positivity
+  have hpos2 : 1 + (x * eps⁻¹) ^ 2 ≠ 0 := by positivity
+  field_simp
+  ring
+
 /-! ### `l2_norm` -/
 
 /-- `functions.l2_norm(dim, ·)`: cell `c` has the components `g c d`, `d < dim` -/
@@ -400,6 +511,20 @@ theorem normRule_soundAt {m k dim : ℕ} (g : Fin k → Fin dim → Fin m) (v : 
     exact hne c (le_antisymm h0 (Finset.sum_nonneg fun d' _ => sq_nonneg _))
   field_simp
   ring
+
+
+/-- index of component `d` of cell `c` in the layout `[u0, v0, w0, u1, v1, w1, …]` that `l2_norm(dim, ·)`
+    assumes (`np.reshape(var.val, (dim, -1), order="F")`) -/
+def cellIdx (size dim : ℕ) (c : Fin size) (d : Fin dim) : Fin (size * dim) :=
+  ⟨c.val * dim + d.val, by
+    calc c.val * dim + d.val < c.val * dim + dim := by omega
+      _ = (c.val + 1) * dim := by ring
+      _ ≤ size * dim := Nat.mul_le_mul_right dim c.isLt⟩
+
+/-- for `dim = 1` the norm rule's value is the absolute value (the code then calls `functions.abs`) -/
+theorem normRule_dim_one_val (size : ℕ) (v : Vec (size * 1)) (c : Fin size) :
+    (normRule (cellIdx size 1)).f v c = |v (cellIdx size 1 c 0)| := by
+  simp [normRule, Real.sqrt_sq_eq_abs]
 
 /-! ## stacking the equations (`EquationSystem.assemble`) -/
 
